@@ -223,10 +223,19 @@ where
         unsafe {
             checkpoint.reset_within_chunk();
 
-            self.chunk.set(RawChunk {
+            let chunk = RawChunk {
                 header: checkpoint.chunk.cast(),
                 marker: PhantomData,
-            });
+            };
+
+            self.chunk.set(chunk);
+
+            // The checkpoint may have been created while a lower minimum alignment was in force
+            // (inside or outside of `aligned`), so its address is not necessarily aligned to `S::MIN_ALIGN`.
+            // Aligning moves the position away from the allocations that are still live, never into them.
+            let chunk = chunk.as_non_dummy_unchecked();
+            let addr = align_pos(S::UP, S::MIN_ALIGN, checkpoint.address.get());
+            chunk.set_pos_addr(addr);
         }
     }
 
